@@ -234,7 +234,7 @@ def r9_1(ctx):
         fi = p.func(key)
         ctx.analysed(fi)
         for prm in params:
-            ctx.require(prm in [a.arg for a in fi.node.args.args], f"{key}: parameter {prm} vanished")
+            ctx.require(prm in [a.arg for a in fi.node.args.args], f"{key}: parameter {prm} vanished", anchor=True)
             uses, derived = _sink_uses(p, fi, prm)
             if not uses:
                 continue
@@ -329,8 +329,8 @@ def r9_3(ctx):
 
 
 def run(ctx):
-    r9_3(ctx)
-    r9_1(ctx)
-    r9_2(ctx)
+    ctx.do(r9_3)
+    ctx.do(r9_1)
+    ctx.do(r9_2)
     ctx.trust("sink table: " + ", ".join(sorted(SINK_CALLS)) + ", `maildir / x`")
     ctx.trust("sanitiser recogniser: guard raising on '..' component AND absolute/leading-slash handling, or is_relative_to/commonpath")
